@@ -21,6 +21,26 @@ def make_cases(ctx, tg, n):
             for x in rng.sample(typed, min(len(typed), rng.choice([2, 3, 5]))):
                 x[2] = rng.choice(["west", "500.0", "-181", "91.5", "abc", "nan", "-1", "25:00:00", "2021-13-01", "ftp://"])
                 muts.append(("typed-many", x[1]))
+        if rng.random() < 0.25:
+            # the SAME defect in two neighbouring nodes of one name (the same message twice in a row, from two different nodes):
+            # a node with a surplus / foreign child is cloned next to itself; each node's errors are its own
+            cands = [(pth, x) for pth, x in gen.nodes_of(t) if pth and x[8]]
+            if cands:
+                pth, x = rng.choice(cands)
+                kind = rng.choice(["surplus", "foreign", "typed"])
+                if kind == "surplus":
+                    for _ in range(rng.choice([1, 2])):
+                        c0 = copy.deepcopy(x[8][0]); gen.strip_ids(c0); x[8].insert(0, c0)
+                elif kind == "foreign":
+                    x[8].append(impl.T("zzForeignChild"))
+                else:
+                    x[2] = "not-a-number"
+                par = t
+                for j in pth[:-1]:
+                    par = par[8][j]
+                twin = copy.deepcopy(x); gen.strip_ids(twin)
+                par[8].insert(pth[-1] + 1, twin)
+                muts.append(("twin-defect", x[1]))
         # plant metadata with arbitrary foreign content somewhere in a third of the cases
         if rng.random() < 0.4:
             foreign = impl.T(rng.choice(["zzForeign", "dataset", "stmml:unitList"]), gen.rand_text(rng),
